@@ -294,7 +294,7 @@ SUBS = [
         "non-trivial = |s| >= 500 samples with a non-zero fractional part", quick=300, thorough=3000),
     Sub("call_history", hist_case(), run_hist,
         "the same time_shift call repeated 2..5 times in one process with one ingredient changed per step (sample rate, data, shift "
-        "value, dtype, numeric vs time form), each result checked against the DFT oracle; non-trivial = >= 2 steps", quick=500,
+        "value, dtype, numeric vs time form), each result checked against the DFT oracle; half of the histories run on ONE signal object re-assigned through its setters / in-place ufuncs between the calls, the others on fresh signals; non-trivial = >= 2 steps", quick=500,
         thorough=10000, pieces_quick=4),
     Sub("too_many_dims", err_case(), run_err, "shift.ndim >= signal.ndim must raise ValueError; every case non-trivial", quick=100, thorough=1000),
 ]
